@@ -16,9 +16,12 @@
 //   * the tracer's own state lives in page-aligned objects that are excluded from the protection;
 //   * __cxa_guard_acquire/release/abort are interposed (defined here, forwarded with dlsym(RTLD_NEXT)): guard events
 //     are part of the log, accesses made by the guard runtime itself are flagged ("rt") and dropped later;
-//   * every operation is recorded in a fresh child process: first call (cold) and second call (warm).
-// Not traced (trusted): libc / libstdc++ / libgcc internals (their own writable segments), thread-local storage,
-// the stack and the heap.
+//   * every operation is recorded in a fresh child process: first call (cold) and second call (warm);
+//   * while recording, `operator new` gives every block its own page(s); a block that was allocated by code of the
+//     executable during a traced call and is still alive when the next traced call starts outlives an operation
+//     (state reachable from static storage, e.g. `static char* buf = new char[n]`): it is protected and traced too.
+// Not traced (trusted): libc / libstdc++ / libgcc internals (their own writable segments and their own allocations),
+// the dynamic loader, thread-local storage, the stack, malloc'ed memory and heap blocks that die with their operation.
 #include "vh_common.h"
 #include "bitserializer/bit_serializer.h"
 #include "bitserializer/msgpack_archive.h"
@@ -31,6 +34,7 @@
 #include "bitserializer/types/std/pair.h"
 #include "bitserializer/types/std/chrono.h"
 #include <atomic>
+#include <new>
 #include <chrono>
 #include <dlfcn.h>
 #include <map>
@@ -58,6 +62,8 @@ constexpr uintptr_t kPage = 4096;
 struct Event { uint8_t kind; uint8_t rt; uint16_t pad; uint32_t count; uintptr_t addr; uintptr_t rip; };
 enum : uint8_t { kRead = 'r', kWrite = 'w', kGuardAcquire = 'a', kGuardTaken = 'A', kGuardRelease = 'g', kGuardAbort = 'x' };
 struct Range { uintptr_t lo, hi; };
+// one `operator new` block of the recording arena
+struct Block { uintptr_t addr; uint32_t pages; uint32_t window; uintptr_t site; uint8_t live, traced, eligible, pad; uint32_t size; };
 
 // Everything the signal handlers and the guard interposers touch.  Page aligned and a whole number of pages, so that
 // its pages can be left out of the protection.
@@ -76,6 +82,14 @@ struct alignas(4096) State
 	void (*realRelease)(GuardWord*);
 	void (*realAbort)(GuardWord*);
 	struct sigaction oldSegv;
+	// page-per-block arena for `operator new` while recording (heap blocks that survive an operation are traced too)
+	int arenaOn;                      // operator new allocates from the arena
+	int window;                       // number of the current / last traced window (1, 2, ..)
+	uintptr_t arenaLo, arenaHi, arenaNext;
+	struct Block* blocks;             // mmap'ed table, one entry per allocation
+	uint32_t* pageBlock;              // mmap'ed: arena page -> block index + 1
+	size_t nBlocks, capBlocks;
+	uintptr_t textLo, textHi;         // text of the executable (allocation call sites of library / harness code)
 	char pad[4096];
 };
 static State S;
@@ -92,6 +106,10 @@ static inline long RawMprotect(uintptr_t addr, size_t len, int prot)
 static inline bool InRanges(uintptr_t a)
 {
 	for (int i = 0; i < S.nRanges; ++i) if (a >= S.ranges[i].lo && a < S.ranges[i].hi) return true;
+	if (a >= S.arenaLo && a < S.arenaNext) {
+		const uint32_t b = S.pageBlock[(a - S.arenaLo) / kPage];
+		return b != 0 && S.blocks[b - 1].traced;
+	}
 	return false;
 }
 
@@ -203,14 +221,71 @@ static void Setup()
 static inline void Begin()
 {
 	S.nEvents = 0; S.dropped = 0; S.nOpen = 0;
+	++S.window;
+	// heap blocks that were allocated by code of the executable during an EARLIER traced window and are still alive
+	// belong to state that outlives an operation (reachable from static storage): trace them from now on
+	for (size_t i = 0; i < S.nBlocks; ++i) {
+		Block& b = S.blocks[i];
+		b.traced = (b.live && b.eligible && b.window != 0 && b.window < static_cast<uint32_t>(S.window)) ? 1 : 0;
+	}
 	S.active = 1;
+	for (size_t i = 0; i < S.nBlocks; ++i) if (S.blocks[i].traced) RawMprotect(S.blocks[i].addr, S.blocks[i].pages * kPage, PROT_NONE);
 	for (int i = 0; i < S.nRanges; ++i) RawMprotect(S.ranges[i].lo, S.ranges[i].hi - S.ranges[i].lo, PROT_NONE);
 }
 
 static inline void End()
 {
 	for (int i = 0; i < S.nRanges; ++i) RawMprotect(S.ranges[i].lo, S.ranges[i].hi - S.ranges[i].lo, PROT_READ | PROT_WRITE);
+	for (size_t i = 0; i < S.nBlocks; ++i) if (S.blocks[i].traced) RawMprotect(S.blocks[i].addr, S.blocks[i].pages * kPage, PROT_READ | PROT_WRITE);
 	S.active = 0;
+}
+
+extern "C" char __executable_start;
+extern "C" char etext;
+
+static void ArenaSetup()
+{
+	const size_t arenaBytes = static_cast<size_t>(2) << 30;
+	void* a = mmap(nullptr, arenaBytes, PROT_READ | PROT_WRITE, MAP_PRIVATE | MAP_ANONYMOUS | MAP_NORESERVE, -1, 0);
+	S.capBlocks = 1 << 20;
+	void* t = mmap(nullptr, S.capBlocks * sizeof(Block), PROT_READ | PROT_WRITE, MAP_PRIVATE | MAP_ANONYMOUS | MAP_NORESERVE, -1, 0);
+	void* pb = mmap(nullptr, (arenaBytes / kPage) * sizeof(uint32_t), PROT_READ | PROT_WRITE, MAP_PRIVATE | MAP_ANONYMOUS | MAP_NORESERVE, -1, 0);
+	if (a == MAP_FAILED || t == MAP_FAILED || pb == MAP_FAILED) { fprintf(stderr, "bsaccess: arena mmap failed\n"); exit(3); }
+	S.arenaLo = S.arenaNext = reinterpret_cast<uintptr_t>(a);
+	S.arenaHi = S.arenaLo + arenaBytes;
+	S.blocks = static_cast<Block*>(t);
+	S.pageBlock = static_cast<uint32_t*>(pb);
+	S.textLo = reinterpret_cast<uintptr_t>(&__executable_start);
+	S.textHi = reinterpret_cast<uintptr_t>(&etext);
+	S.arenaOn = 1;
+}
+
+// operator new while recording: every block on its own page(s), never reused
+static inline void* ArenaAlloc(size_t size, uintptr_t site)
+{
+	const size_t pages = (size + kPage - 1) / kPage + (size == 0 ? 1 : 0);
+	if (S.arenaNext + pages * kPage > S.arenaHi || S.nBlocks >= S.capBlocks) return nullptr;
+	const uintptr_t addr = S.arenaNext;
+	S.arenaNext += pages * kPage;
+	Block& b = S.blocks[S.nBlocks++];
+	b.addr = addr; b.pages = static_cast<uint32_t>(pages); b.size = static_cast<uint32_t>(size);
+	b.window = S.active ? static_cast<uint32_t>(S.window) : 0;
+	b.site = site; b.live = 1; b.traced = 0;
+	b.eligible = (site >= S.textLo && site < S.textHi) ? 1 : 0;
+	for (size_t i = 0; i < pages; ++i) S.pageBlock[(addr - S.arenaLo) / kPage + i] = static_cast<uint32_t>(S.nBlocks);
+	return reinterpret_cast<void*>(addr);
+}
+static inline bool ArenaFree(void* p)
+{
+	const uintptr_t a = reinterpret_cast<uintptr_t>(p);
+	if (a < S.arenaLo || a >= S.arenaHi) return false;
+	const uint32_t b = S.pageBlock[(a - S.arenaLo) / kPage];
+	if (b) {
+		Block& blk = S.blocks[b - 1];
+		blk.live = 0;
+		if (!blk.traced) madvise(reinterpret_cast<void*>(blk.addr), blk.pages * kPage, MADV_DONTNEED);
+	}
+	return true;
 }
 
 static void ResolveGuards()
@@ -224,6 +299,31 @@ static void ResolveGuards()
 }
 
 }  // namespace tracer
+
+// Replaceable global allocation functions: plain malloc/free, except while recording, where every block gets its own
+// page(s) so that blocks which survive an operation can be protected and traced like static storage.
+static inline void* NewImpl(size_t n, uintptr_t site)
+{
+	if (tracer::S.arenaOn) { if (void* p = tracer::ArenaAlloc(n, site)) return p; }
+	if (void* p = malloc(n ? n : 1)) return p;
+	throw std::bad_alloc();
+}
+static inline void DeleteImpl(void* p) noexcept
+{
+	if (!p) return;
+	if (tracer::S.arenaLo && tracer::ArenaFree(p)) return;
+	free(p);
+}
+void* operator new(size_t n) { return NewImpl(n, reinterpret_cast<uintptr_t>(__builtin_return_address(0))); }
+void* operator new[](size_t n) { return NewImpl(n, reinterpret_cast<uintptr_t>(__builtin_return_address(0))); }
+void* operator new(size_t n, const std::nothrow_t&) noexcept { try { return NewImpl(n, reinterpret_cast<uintptr_t>(__builtin_return_address(0))); } catch (...) { return nullptr; } }
+void* operator new[](size_t n, const std::nothrow_t&) noexcept { try { return NewImpl(n, reinterpret_cast<uintptr_t>(__builtin_return_address(0))); } catch (...) { return nullptr; } }
+void operator delete(void* p) noexcept { DeleteImpl(p); }
+void operator delete[](void* p) noexcept { DeleteImpl(p); }
+void operator delete(void* p, size_t) noexcept { DeleteImpl(p); }
+void operator delete[](void* p, size_t) noexcept { DeleteImpl(p); }
+void operator delete(void* p, const std::nothrow_t&) noexcept { DeleteImpl(p); }
+void operator delete[](void* p, const std::nothrow_t&) noexcept { DeleteImpl(p); }
 
 // Interposed C++11 "magic static" guard functions (the definitions of the executable win over libstdc++'s).
 extern "C" int __cxa_guard_acquire(GuardWord* g)
@@ -610,6 +710,12 @@ static void ProduceDocsInChild()
 //=====================================================================================================================
 static std::string ModuleRelative(uintptr_t a)
 {
+	if (a >= tracer::S.arenaLo && a < tracer::S.arenaHi) {
+		const uint32_t b = tracer::S.pageBlock[(a - tracer::S.arenaLo) / tracer::kPage];
+		char buf[64];
+		snprintf(buf, sizeof buf, "heap:%u+0x%lx", b ? b - 1 : 0, static_cast<unsigned long>(b ? a - tracer::S.blocks[b - 1].addr : 0));
+		return buf;
+	}
 	// executable addresses are absolute (non-PIE); other modules as  name+0xoffset
 	Dl_info info;
 	if (dladdr(reinterpret_cast<void*>(a), &info) && info.dli_fname) {
@@ -640,6 +746,14 @@ static void EmitEvents(const char* op, const char* phase, const std::string& res
 		const char k[2] = {static_cast<char>(e.kind), 0};
 		o += "{\"k\":\"" + std::string(k) + "\",\"rt\":" + std::to_string(e.rt) + ",\"n\":" + std::to_string(e.count) + ",\"a\":\"" + ModuleRelative(e.addr) + "\",\"ip\":\"" + (e.rip ? ModuleRelative(e.rip) : std::string()) + "\"}";
 	}
+	o += "],\"heap\":[";
+	bool first = true;
+	for (size_t i = 0; i < S.nBlocks; ++i) {
+		if (!S.blocks[i].traced) continue;
+		if (!first) o += ',';
+		first = false;
+		o += "{\"id\":" + std::to_string(i) + ",\"size\":" + std::to_string(S.blocks[i].size) + ",\"site\":\"" + ModuleRelative(S.blocks[i].site) + "\"}";
+	}
 	o += "]}\n";
 	fputs(o.c_str(), stdout);
 }
@@ -647,6 +761,7 @@ static void EmitEvents(const char* op, const char* phase, const std::string& res
 static int ModeRecord(const char* only)
 {
 	tracer::Setup();
+	tracer::ArenaSetup();
 	// segments (for the evidence and for symbolisation)
 	{
 		std::string o = "{\"segments\":[";
